@@ -8,7 +8,7 @@ LEAN_MODULES = ["ViaProofs.C15"]
 LEMMA_MODULES = ['ViaProofs.Trans.RQ', 'ViaProofs.Trans.RR', 'ViaProofs.Trans.MHA', 'ViaProofs.Trans.RQP']
 REQUIRED_THEOREMS = ['Via.C15_body_expect', 'Via.C15_chunk_expect', 'Via.C15_at_most_once', 'Via.C15_not_for_http10', 'Via.C15_reset', 'Via.C15_continue_keeps_connection']
 LEVEL = "proof"
-LEVEL_TEXT = ("PROOF of the receiver's decision logic (EXPECT_CONTINUE exactly when expected for Content-Length and chunked bodies, at most once per request, never for HTTP/1.0, reset between requests, 100 Continue keeps the connection); correspondence with the real server incl. a handler that rejects the expectation followed by further Expect requests.")
+LEVEL_TEXT = ("PROOF of the receiver's decision logic (EXPECT_CONTINUE exactly when expected for Content-Length and chunked bodies, at most once per request, never for HTTP/1.0, reset between requests, 100 Continue keeps the connection); the receiver (request_receiver::receive, expect_continue()) as translated from the current source is proved equal to the model (Trans/RR, Trans/RQP, Trans/MHA); correspondence with the real server incl. a handler that rejects the expectation followed by further Expect requests.")
 TRUSTED_BASE = S.SIM_TRUSTED
 ASSUMPTIONS = S.SIM_ASSUMPTIONS
 compare = S.compare
